@@ -103,6 +103,15 @@ Theorem C08_stream_closed_only_after_cancel : forall s i x,
   mreach s -> nth_error (subs s) i = Some x -> wclosed x = true -> cancelled x = true.
 Proof. exact closed_after_cancel_machine. Qed.
 
+(* After the cancel the subscriber's pipeline is never stuck before the consumer has seen the close
+   (while the machine is not inside a broadcast, which the cleanup goroutine has to wait out). *)
+Theorem C08_stream_close_progress : forall s i x,
+  mreach s -> nth_error (subs s) i = Some x ->
+  cancelled x = true -> sg x = SLive -> gotclosed x = false ->
+  (unsub x = false -> pend s = []) ->
+  exists l, In l (pipeline_labels i) /\ step fsm_cfg s l <> None.
+Proof. exact close_progress_machine. Qed.
+
 (* The property as stated (s0 :: later changes, up to ONE leading duplicate) holds when at most one
    state change falls between the subscriber's registration and its read of the state... *)
 Theorem C08_stream_partial : forall s i x,
@@ -162,6 +171,7 @@ Print Assumptions C08_stream.
 Print Assumptions C08_stream_runners.
 Print Assumptions C08_stream_closed.
 Print Assumptions C08_stream_closed_only_after_cancel.
+Print Assumptions C08_stream_close_progress.
 Print Assumptions C08_stream_partial.
 Print Assumptions C08_stream_refuted.
 Print Assumptions C08_result_http.
